@@ -171,7 +171,18 @@ func run(c dnk.Case, k *ev.Case) *ev.Failure {
 	return nil
 }
 
-var sub = ev.Sub[dnk.Case]{Name: "downstream", Repeats: 30, Q: 150, T: 5000, Gen: func(t *rapid.T) dnk.Case { return dnk.Gen(t, 60, true) }, Run: run}
+var sub = ev.Sub[dnk.Case]{Name: "downstream", Repeats: 30, Q: 150, T: 5000, Gen: func(t *rapid.T) dnk.Case {
+	c := dnk.Gen(t, 60, true)
+	// a third of the cases run over a connection that also has a datagram transport (QUIC/WebTransport shape); unreliable QoS
+	// is left out there because the scripted broker sends every chunk over the reliable transport
+	if rapid.IntRange(0, 2).Draw(t, "datagram") == 0 {
+		c.Datagram = true
+		if c.QoS == 0 {
+			c.QoS = rapid.IntRange(1, 2).Draw(t, "qos-datagram")
+		}
+	}
+	return c
+}, Run: run}
 
 func TestProp(t *testing.T)   { sub.Check(t) }
 func TestReplay(t *testing.T) { ev.ReplayTest(t, sub) }
